@@ -22,6 +22,7 @@ CORPUS = {
     "refs-nested-only": "let @inner = { 'x int };\nlet @outer = { 'inner @inner, 'list [@inner] };\nres /o on post : <@outer> -> <status=201, @outer> :: <status=4XX, { 'err str }>;\n",
     "refs-uri-and-rel": "let @link = /items/{ 'id int };\nlet @r = @link on get -> <{}>;\nres @r;\nres /other on get -> <{ 'self @link, 'rel @r }>;\n",
     "path-params": "let id = 'id int;\nres /a/{ id }/b/{ 'name str } on get -> <{}>;\nres /a/{ id }?{ 'q str } on delete -> <>;\n",
+    "path-params-optional": "let item = 'id? int;\nlet q = 'p str;\nres /items/{ item } on get -> <{ item }>;\nres /x/{ 'k? str }/y/{ q ? } on get -> <{}>;\n",
     "status-keys": "res /s on get -> <status=200, {}> :: <status=404, media=\"text/plain\", str> :: <status=5XX, {}> :: <{}>;\nres /n on post : <{}> -> <status=201, {}>;\n",
     "status-default-204": "res /d on delete -> <>;\n",
     "uri-append": "let base = /api/v1;\nlet item = concat base /items/{ 'id int };\nres item on get -> <{}>;\n",
